@@ -464,137 +464,142 @@ def run_impl(case):
             continue
         route = op[6] if kind in ("add", "remove") and len(op) > 6 else None
         _TRACE = []
-        if kind == "bind":
-            taken = st.namespace(PFX[op[2]]) is not None or st.prefix(NSP[op[3]]) is not None
-            st.bind(PFX[op[2]], NSP[op[3]], override=bool(op[4]))
-            if not op[4] and taken and _bindings(st)[:2] != bind_before:
-                viol.append(f"bind: op {k} bind({op[2]}, {op[3]}, override=False) through the wrapper changed existing bindings "
-                            f"{bind_before} -> {_bindings(st)[:2]}")
-            if op[4] and (st.namespace(PFX[op[2]]) != NSP[op[3]] or st.prefix(NSP[op[3]]) != PFX[op[2]]):
-                viol.append(f"bind: op {k} bind({op[2]}, {op[3]}, override=True) through the wrapper did not take effect")
-        elif kind == "pass":
-            what = op[2]
-            if what == "open":
-                st.open("cfg")
-            elif what == "close":
-                st.close()
-            elif what == "close_commit":
-                st.close(True)
-            elif what == "destroy":
-                st.destroy("cfg")
-            else:
-                try:
-                    st.query("SELECT * WHERE { ?s ?p ?o }", {}, {}, "__UNION__")
-                except NotImplementedError:
-                    pass
-        elif kind == "add":
-            s, p, o, c = op[2:6]
-            if route == "store":
-                st.add((t(s), t(p), t(o)), ctx_of(st, c))
-            elif route == "resource":
-                (top if cfg == "graph" else top.get_context(gn[c])).resource(t(s)).add(t(p), t(o))
-            elif cfg == "graph":
-                top.add((t(s), t(p), t(o)))
-            elif route == "ident":
-                top.add((t(s), t(p), t(o), gn[c]))
-            elif route == "ctxobj":
-                handed_out(top, c).add((t(s), t(p), t(o)))
-            elif route == "self" and c == DEFAULT_G:
-                top.add((t(s), t(p), t(o), top))
-            elif route in ("ctxof", "quadctx", "tripctx"):
-                handed_out_by(route, top, st, c, before).add((t(s), t(p), t(o)))
-            elif k % 2 == 0:
-                top.add((t(s), t(p), t(o), top.get_context(gn[c])))
-            else:
-                top.get_context(gn[c]).add((t(s), t(p), t(o)))
-            dirty[w] = True
-        elif kind == "addf":
-            (s_, p_, o_, c_), extra = op[2], op[3]
-            foreign = Graph(identifier=gn[c_])          # a graph of ANOTHER store carrying the same name
-            for es, ep, eo in extra:
-                foreign.add((t(es), t(ep), t(eo)))
-            top.add((t(s_), t(p_), t(o_), foreign))     # _graph() copies its content in, then adds the triple
-            dirty[w] = True
-        elif kind == "addn":
-            qs = op[2]
-            if cfg == "graph":
-                if k % 2 == 0:
-                    top.addN([(t(s_), t(p_), t(o_), top) for s_, p_, o_, _c in qs])
+        try:
+            if kind == "bind":
+                taken = st.namespace(PFX[op[2]]) is not None or st.prefix(NSP[op[3]]) is not None
+                st.bind(PFX[op[2]], NSP[op[3]], override=bool(op[4]))
+                if not op[4] and taken and _bindings(st)[:2] != bind_before:
+                    viol.append(f"bind: op {k} bind({op[2]}, {op[3]}, override=False) through the wrapper changed existing bindings "
+                                f"{bind_before} -> {_bindings(st)[:2]}")
+                if op[4] and (st.namespace(PFX[op[2]]) != NSP[op[3]] or st.prefix(NSP[op[3]]) != PFX[op[2]]):
+                    viol.append(f"bind: op {k} bind({op[2]}, {op[3]}, override=True) through the wrapper did not take effect")
+            elif kind == "pass":
+                what = op[2]
+                if what == "open":
+                    st.open("cfg")
+                elif what == "close":
+                    st.close()
+                elif what == "close_commit":
+                    st.close(True)
+                elif what == "destroy":
+                    st.destroy("cfg")
                 else:
-                    top += [(t(s_), t(p_), t(o_)) for s_, p_, o_, _c in qs]
-            else:
-                top.addN([(t(s_), t(p_), t(o_), top.get_context(gn[c_])) for s_, p_, o_, c_ in qs])
-            dirty[w] = True
-        elif kind == "parse":
-            qs = op[2]
-            doc = Graph()
-            for s_, p_, o_, _c in qs:
-                doc.add((t(s_), t(p_), t(o_)))
-            text = doc.serialize(format="nt")
-            c_ = qs[0][3]
-            if cfg == "graph":
-                top.parse(data=text, format="nt")
-            else:
-                top.get_context(gn[c_]).parse(data=text, format="nt")
-            dirty[w] = True
-        elif kind == "upd":
-            sub = op[2]
+                    try:
+                        st.query("SELECT * WHERE { ?s ?p ?o }", {}, {}, "__UNION__")
+                    except NotImplementedError:
+                        pass
+            elif kind == "add":
+                s, p, o, c = op[2:6]
+                if route == "store":
+                    st.add((t(s), t(p), t(o)), ctx_of(st, c))
+                elif route == "resource":
+                    (top if cfg == "graph" else top.get_context(gn[c])).resource(t(s)).add(t(p), t(o))
+                elif cfg == "graph":
+                    top.add((t(s), t(p), t(o)))
+                elif route == "ident":
+                    top.add((t(s), t(p), t(o), gn[c]))
+                elif route == "ctxobj":
+                    handed_out(top, c).add((t(s), t(p), t(o)))
+                elif route == "self" and c == DEFAULT_G:
+                    top.add((t(s), t(p), t(o), top))
+                elif route in ("ctxof", "quadctx", "tripctx"):
+                    handed_out_by(route, top, st, c, before).add((t(s), t(p), t(o)))
+                elif k % 2 == 0:
+                    top.add((t(s), t(p), t(o), top.get_context(gn[c])))
+                else:
+                    top.get_context(gn[c]).add((t(s), t(p), t(o)))
+                dirty[w] = True
+            elif kind == "addf":
+                (s_, p_, o_, c_), extra = op[2], op[3]
+                foreign = Graph(identifier=gn[c_])          # a graph of ANOTHER store carrying the same name
+                for es, ep, eo in extra:
+                    foreign.add((t(es), t(ep), t(eo)))
+                top.add((t(s_), t(p_), t(o_), foreign))     # _graph() copies its content in, then adds the triple
+                dirty[w] = True
+            elif kind == "addn":
+                qs = op[2]
+                if cfg == "graph":
+                    if k % 2 == 0:
+                        top.addN([(t(s_), t(p_), t(o_), top) for s_, p_, o_, _c in qs])
+                    else:
+                        top += [(t(s_), t(p_), t(o_)) for s_, p_, o_, _c in qs]
+                else:
+                    top.addN([(t(s_), t(p_), t(o_), top.get_context(gn[c_])) for s_, p_, o_, c_ in qs])
+                dirty[w] = True
+            elif kind == "parse":
+                qs = op[2]
+                doc = Graph()
+                for s_, p_, o_, _c in qs:
+                    doc.add((t(s_), t(p_), t(o_)))
+                text = doc.serialize(format="nt")
+                c_ = qs[0][3]
+                if cfg == "graph":
+                    top.parse(data=text, format="nt")
+                else:
+                    top.get_context(gn[c_]).parse(data=text, format="nt")
+                dirty[w] = True
+            elif kind == "upd":
+                sub = op[2]
 
-            def n3(x):
-                return TERM[x].n3()
+                def n3(x):
+                    return TERM[x].n3()
 
-            def wrap(body, c_):
-                return body if (cfg == "graph" or c_ is None or (c_ == DEFAULT_G and sub != "delwhere")) else "GRAPH %s { %s }" % (gn[c_].n3(), body)
-            if sub in ("insert", "delete"):
-                qs = op[3]
-                body = " ".join("%s %s %s ." % (n3(s_), n3(p_), n3(o_)) for s_, p_, o_, _c in qs)
-                top.update("%s DATA { %s }" % ("INSERT" if sub == "insert" else "DELETE", wrap(body, qs[0][3])))
-            elif sub == "clear":
-                top.update("CLEAR GRAPH %s" % gn[op[3]].n3())
-            else:
-                s, p, o, c = op[3:7]
-                body = "%s %s %s ." % tuple(("?v%d" % j) if x is None else n3(x) for j, x in enumerate((s, p, o)))
-                top.update("DELETE WHERE { %s }" % wrap(body, c))
-            dirty[w] = True
-        elif kind == "set":
-            s, p, o, c = op[2:]
-            (top if cfg == "graph" else top.get_context(gn[c])).set((t(s), t(p), t(o)))
-            dirty[w] = True
-        elif kind == "isub":
-            qs = op[2]
-            g_ = top if cfg == "graph" else top.get_context(gn[qs[0][3]])
-            g_ -= [(t(s_), t(p_), t(o_)) for s_, p_, o_, _c in qs]
-            dirty[w] = True
-        elif kind == "rmctx":
-            top.remove_context(top.get_context(gn[op[2]]))
-            dirty[w] = True
-        elif kind == "remove":
-            s, p, o, c = op[2:6]
-            if route == "store":
-                st.remove((t(s), t(p), t(o)), ctx_of(st, c))
-            elif route == "resource" and s is not None and p is not None and c is not None:
-                (top if cfg == "graph" else top.get_context(gn[c])).resource(t(s)).remove(t(p), t(o))
-            elif cfg == "graph":
-                top.remove((t(s), t(p), t(o)))
-            elif c is None:
-                top.remove((t(s), t(p), t(o)))
-            elif route == "ident":
-                top.remove((t(s), t(p), t(o), gn[c]))
-            elif route == "ctxobj":
-                handed_out(top, c).remove((t(s), t(p), t(o)))
-            elif route == "self" and c == DEFAULT_G:
-                top.remove((t(s), t(p), t(o), top))
-            elif route in ("ctxof", "quadctx", "tripctx"):
-                handed_out_by(route, top, st, c, before).remove((t(s), t(p), t(o)))
-            elif k % 2 == 0:
-                top.remove((t(s), t(p), t(o), top.get_context(gn[c])))
-            else:
-                top.get_context(gn[c]).remove((t(s), t(p), t(o)))
-            dirty[w] = True
-        elif kind == "commit":
-            (st if (nest and w == 1) else top).commit()
-        elif kind == "rollback":
-            (st if (nest and w == 1) else top).rollback()
+                def wrap(body, c_):
+                    return body if (cfg == "graph" or c_ is None or (c_ == DEFAULT_G and sub != "delwhere")) else "GRAPH %s { %s }" % (gn[c_].n3(), body)
+                if sub in ("insert", "delete"):
+                    qs = op[3]
+                    body = " ".join("%s %s %s ." % (n3(s_), n3(p_), n3(o_)) for s_, p_, o_, _c in qs)
+                    top.update("%s DATA { %s }" % ("INSERT" if sub == "insert" else "DELETE", wrap(body, qs[0][3])))
+                elif sub == "clear":
+                    top.update("CLEAR GRAPH %s" % gn[op[3]].n3())
+                else:
+                    s, p, o, c = op[3:7]
+                    body = "%s %s %s ." % tuple(("?v%d" % j) if x is None else n3(x) for j, x in enumerate((s, p, o)))
+                    top.update("DELETE WHERE { %s }" % wrap(body, c))
+                dirty[w] = True
+            elif kind == "set":
+                s, p, o, c = op[2:]
+                (top if cfg == "graph" else top.get_context(gn[c])).set((t(s), t(p), t(o)))
+                dirty[w] = True
+            elif kind == "isub":
+                qs = op[2]
+                g_ = top if cfg == "graph" else top.get_context(gn[qs[0][3]])
+                g_ -= [(t(s_), t(p_), t(o_)) for s_, p_, o_, _c in qs]
+                dirty[w] = True
+            elif kind == "rmctx":
+                top.remove_context(top.get_context(gn[op[2]]))
+                dirty[w] = True
+            elif kind == "remove":
+                s, p, o, c = op[2:6]
+                if route == "store":
+                    st.remove((t(s), t(p), t(o)), ctx_of(st, c))
+                elif route == "resource" and s is not None and p is not None and c is not None:
+                    (top if cfg == "graph" else top.get_context(gn[c])).resource(t(s)).remove(t(p), t(o))
+                elif cfg == "graph":
+                    top.remove((t(s), t(p), t(o)))
+                elif c is None:
+                    top.remove((t(s), t(p), t(o)))
+                elif route == "ident":
+                    top.remove((t(s), t(p), t(o), gn[c]))
+                elif route == "ctxobj":
+                    handed_out(top, c).remove((t(s), t(p), t(o)))
+                elif route == "self" and c == DEFAULT_G:
+                    top.remove((t(s), t(p), t(o), top))
+                elif route in ("ctxof", "quadctx", "tripctx"):
+                    handed_out_by(route, top, st, c, before).remove((t(s), t(p), t(o)))
+                elif k % 2 == 0:
+                    top.remove((t(s), t(p), t(o), top.get_context(gn[c])))
+                else:
+                    top.get_context(gn[c]).remove((t(s), t(p), t(o)))
+                dirty[w] = True
+            elif kind == "commit":
+                (st if (nest and w == 1) else top).commit()
+            elif kind == "rollback":
+                (st if (nest and w == 1) else top).rollback()
+        except core.CaseTimeout:
+            raise
+        except Exception as e_:     # a valid call on valid arguments that cannot be carried out: the history breaks off here
+            viol.append(f"raise: op {k} ({kind}{'/' + str(op[2]) if kind in ('upd', 'pass') else ''}) raised {type(e_).__name__}: {str(e_)[:120]}")
         made, _TRACE = _TRACE, None
         # graphs created while the operation ran: one bound BELOW the wrapper the caller talks to, created anywhere but inside
         # AuditableStore itself (its own re-bound views are never handed out: `bound` reads), is a way round the undo log
